@@ -23,6 +23,8 @@ pub struct Knobs {
     pub bufwriter_cap: usize,
     /// Override for the zstd level of collection metadata streams (shipped: 19/18/19).
     pub meta_zstd_level: Option<i32>,
+    /// Capacity of the archive reader's `BufReader` (shipped value: std's default, 8 KiB).
+    pub bufreader_cap: usize,
 }
 
 impl Default for Knobs {
@@ -30,6 +32,7 @@ impl Default for Knobs {
         Knobs {
             bufwriter_cap: 4 * 1024 * 1024,
             meta_zstd_level: None,
+            bufreader_cap: 8 * 1024,
         }
     }
 }
@@ -239,6 +242,10 @@ pub fn advance_clock(ms: u64) {
 
 pub fn bufwriter_cap() -> usize {
     with(|w| w.knobs.bufwriter_cap).unwrap_or(4 * 1024 * 1024)
+}
+
+pub fn bufreader_cap() -> usize {
+    with(|w| w.knobs.bufreader_cap).unwrap_or(8 * 1024)
 }
 
 /// Metadata zstd level: the knob when set, else the shipped level.
